@@ -101,7 +101,7 @@ func (m *UpstreamClusterController) syncUpstreamCluster(obj interface{}) (syncqu
 		return syncqueue.Result{}, nil
 	}
 
-	_, err := m.lister.Get(cluster.Name)
+	latest, err := m.lister.Get(cluster.Name)
 	clusterName := strings.ToLower(cluster.Name)
 	if errors.IsNotFound(err) {
 		// clean cluster
@@ -111,6 +111,10 @@ func (m *UpstreamClusterController) syncUpstreamCluster(obj interface{}) (syncqu
 	if err != nil {
 		return syncqueue.Result{}, err
 	}
+	// The queue is keyed by object, so obj may be a superseded version: an older event that is processed
+	// late, or a requeued one that is retried after newer versions have been applied. Always sync the
+	// latest version known to the lister, never go back to an old one.
+	cluster = latest
 
 	if err := m.checkUpstreamServerNameConflict(cluster); err != nil {
 		klog.Errorf("ckeck cluster %v failed: %v", cluster.Name, err)
